@@ -529,7 +529,7 @@ package loadbalancer
 // (C05: least_connections compares the in-flight gauges - they are exact only if every dispatch restores its +1 on
 // every exit, the abort by panic included)
 //@ func (*LoadBalancer).proxyRequest
-//@   props C01 C07 C13 C12 C03 C20 C02 C05
+//@   props C01 C07 C13 C12 C03 C20 C02 C05 C04
 //@   may_panic
 //@   requires backend != nil && backend.ReverseProxy != nil && reqOK(lb, r) && lbOK(lb) && idle(lb) && bmCellsOK(lb.metricsCollector) && passiveOK(lb) && below2to63(lb)
 //@   ensures gauge_restored: backend.ActiveConnections == old(backend.ActiveConnections)
@@ -745,7 +745,7 @@ package loadbalancer
 //@     && (dyntype(lb.strategy, *IPHashConsistentStrategy) ==> distinct_IPHashConsistentStrategy(asptr(lb.strategy, *IPHashConsistentStrategy)))
 
 //@ func (*WeightedRoundRobinStrategy).AddBackend
-//@   props C11 C12
+//@   props C11 C12 C05
 //@   requires unlocked(wrr.mutex)
 //@   ensures appended: len(wrr.backends) == old(len(wrr.backends)) + 1 && wrr.backends[old(len(wrr.backends))] != nil && fresh(wrr.backends[old(len(wrr.backends))])
 //@             && wrr.backends[old(len(wrr.backends))].backend == backend && wrr.backends[old(len(wrr.backends))].currentWeight == 0
@@ -1018,15 +1018,30 @@ package loadbalancer
 //@   props C18
 //@   requires lb != nil && cfg != nil
 //@   modifies lb.wsPool
+// C09 / C07: the limiter and the breaker that serve requests run with the configured numbers (seconds become
+// nanoseconds; 0 selects the documented default) - a swapped or dropped setting here breaks every bound the two
+// packages prove about themselves
 //@ func (*LoadBalancer).setupRateLimiter
-//@   props C18
-//@   requires lb != nil && cfg != nil
+//@   props C18 C09
+//@   requires lb != nil && cfg != nil && (cfg.RateLimit.Enabled ==> 0 <= cfg.RateLimit.RefillRate && cfg.RateLimit.RefillRate <= 9223372036)
+//@   ensures the_limiter_runs_with_the_configured_numbers@C09: cfg.RateLimit.Enabled ==> dyntype(lb.rateLimiter, *ratelimiter.TokenBucketRateLimiter)
+//@             && asptr(lb.rateLimiter, *ratelimiter.TokenBucketRateLimiter).maxTokens == (cfg.RateLimit.MaxTokens <= 0 ? 100 : cfg.RateLimit.MaxTokens)
+//@             && asptr(lb.rateLimiter, *ratelimiter.TokenBucketRateLimiter).refillRate == (cfg.RateLimit.RefillRate == 0 ? 1000000000 : cfg.RateLimit.RefillRate * 1000000000)
+//@   ensures disabled_means_none: !cfg.RateLimit.Enabled ==> lb.rateLimiter == old(lb.rateLimiter)
 //@   modifies lb.rateLimiter
 //@ pred cfgBreakerInRange(c *config.Config) := 0 <= c.CircuitBreaker.IntervalSeconds && c.CircuitBreaker.IntervalSeconds <= 9223372036
 //@      && 0 <= c.CircuitBreaker.TimeoutSeconds && c.CircuitBreaker.TimeoutSeconds <= 9223372036
+//@ pred cfgBreakerCounts(c *config.Config) := 0 <= c.CircuitBreaker.MaxRequests && c.CircuitBreaker.MaxRequests < 4294967296 && 0 <= c.CircuitBreaker.FailureThreshold
+//@      && c.CircuitBreaker.FailureThreshold < 4294967296 && 0 <= c.CircuitBreaker.SuccessThreshold && c.CircuitBreaker.SuccessThreshold < 4294967296
 //@ func (*LoadBalancer).setupCircuitBreaker
-//@   props C18
-//@   requires lb != nil && cfg != nil && cfgBreakerInRange(cfg)
+//@   props C18 C07 C08
+//@   requires lb != nil && cfg != nil && (cfg.CircuitBreaker.Enabled ==> cfgBreakerInRange(cfg) && cfgBreakerCounts(cfg))
+//@   ensures the_breaker_runs_with_the_configured_numbers@C07: cfg.CircuitBreaker.Enabled ==> lb.circuitBreaker != nil
+//@             && lb.circuitBreaker.failureThreshold == (cfg.CircuitBreaker.FailureThreshold == 0 ? 5 : cfg.CircuitBreaker.FailureThreshold)
+//@             && lb.circuitBreaker.successThreshold == (cfg.CircuitBreaker.SuccessThreshold == 0 ? 1 : cfg.CircuitBreaker.SuccessThreshold)
+//@             && lb.circuitBreaker.maxRequests == (cfg.CircuitBreaker.MaxRequests == 0 ? 1 : cfg.CircuitBreaker.MaxRequests)
+//@             && lb.circuitBreaker.interval == (cfg.CircuitBreaker.IntervalSeconds == 0 ? 60000000000 : cfg.CircuitBreaker.IntervalSeconds * 1000000000)
+//@             && lb.circuitBreaker.timeout == (cfg.CircuitBreaker.TimeoutSeconds == 0 ? 60000000000 : cfg.CircuitBreaker.TimeoutSeconds * 1000000000)
 //@   modifies lb.circuitBreaker
 // C04: "a failed active probe ejects it ... for the configured unhealthy window": whenever a kind of health
 // checking is enabled the window must have a positive length (the README's active-only example omits the
@@ -1053,7 +1068,8 @@ package loadbalancer
 //@ func NewLoadBalancer
 //@   props C18
 //@   results lb, err
-//@   requires cfg != nil && cfgTimeoutsInRange(cfg) && cfgBreakerInRange(cfg) && len(cfg.Backends) < 2147483647 && noStrategyLocks()
+//@   requires cfg != nil && cfgTimeoutsInRange(cfg) && len(cfg.Backends) < 2147483647 && noStrategyLocks()
+//@   requires (cfg.CircuitBreaker.Enabled ==> cfgBreakerInRange(cfg) && cfgBreakerCounts(cfg)) && (cfg.RateLimit.Enabled ==> 0 <= cfg.RateLimit.RefillRate && cfg.RateLimit.RefillRate <= 9223372036)
 //@   ensures every_configured_backend_is_in_the_pool_or_construction_fails: err == nil ==> lb != nil && sLen(lb.strategy) == len(cfg.Backends)
 //@   ensures error_means_no_balancer: err != nil ==> lb == nil
 //@   modifies *
